@@ -156,6 +156,10 @@ namespace sim
          s.success( in, outer... );
       }
    };
+   // double switch on the same rule: the action that change_action_and_state(s) switches TO carries a switch of
+   // its own for that rule (consulted only if the first switch re-dispatches through Control< Rule >::match)
+   template< int J > struct act2< mw_cas< J > > : pegtl::enable_action { static constexpr int family = 2; };
+   template< int J > struct act2< mw_cass< J > > : pegtl::disable_action { static constexpr int family = 2; };
    // clang-format on
 
    // ------------------------------------------------------------ static rules used as atoms
